@@ -4,6 +4,7 @@
 package xport
 
 import (
+	"runtime"
 	"errors"
 	"fmt"
 	"io"
@@ -162,6 +163,12 @@ type ScriptConn struct {
 	FiredAtOp           int
 	curWDL              time.Time
 	inWrite             bool
+	// WritesNoDeadline counts the Writes made while no write deadline was armed.
+	WritesNoDeadline int
+	// TrackDepth makes Read record the deepest call stack (in frames, capped
+	// at 1024) from which it was called.
+	TrackDepth bool
+	MaxDepth   int
 	// Starved counts the Reads issued when every scripted input byte had been
 	// delivered: on a live connection whose peer stays silent each of them
 	// would block.
@@ -280,6 +287,12 @@ func (c *ScriptConn) Read(p []byte) (int, error) {
 	c.mu.Lock()
 	defer c.mu.Unlock()
 	c.readN++
+	if c.TrackDepth {
+		var pcs [1024]uintptr
+		if d := runtime.Callers(0, pcs[:]); d > c.MaxDepth {
+			c.MaxDepth = d
+		}
+	}
 	if c.rfired && !c.rfault.Resume {
 		c.log(Op{Kind: OpRead, Asked: len(p), Err: c.rferr})
 		return 0, c.rferr
@@ -384,6 +397,9 @@ func (c *ScriptConn) Write(p []byte) (int, error) {
 		c.wops++
 		c.log(Op{Kind: OpWrite, Asked: len(p), Err: c.wferr})
 		return 0, c.wferr
+	}
+	if c.curWDL.IsZero() {
+		c.WritesNoDeadline++
 	}
 	c.inWrite = true
 	kind, hit := c.writeSideFault()
